@@ -80,7 +80,7 @@ def pcPoint : PC → String
   | .expEnter => "expand.enter"
   | .expRead => "expand.read"
   | .expWLock _ => "expand.wlock"
-  | .expMig _ _ => "expand.mig"
+  | .expMig => "expand.mig"
   | .expDone => "expand.done"
   | .expRetry _ => "expand.retry"
   | .dropGet => "drop.get"
@@ -157,7 +157,7 @@ def contention (d : D) : Tid → Bool
   | .stop => d.s.stopPc == .sDone &&
       (d.s.prods.any (fun p => match p.pc with
         | .expWLock _ => true
-        | .expMig _ _ => true
+        | .expMig => true
         | _ => false))
   | .prod i => wantsWrite d (.prod i) && d.pend.contains .stop
   | .cons => false
@@ -276,7 +276,7 @@ def qLoop : Nat → D → List (List String) → List (List String) → D × Lis
 
 def statsSafe (d : D) : Bool := !(wHeld d.s) && !(writerPending d)
 
-def allRet (d : D) : Bool := d.s.prods.all (fun p => p.cur.isNone)
+def allRet (d : D) : Bool := allIdle d.s
 
 /-- one op; `impl` = the lines the implementation printed for it -/
 def doOpW (d : D) (op : List String) (impl : List (List String)) : D × List (List String) :=
